@@ -64,6 +64,14 @@ func (core *JApiCore) processPasteDirective(paste *directive.Directive) *jerr.JA
 		return paste.KeywordError("macro not found")
 	}
 
+	// A macro that is being expanded must not be pasted again, directly or through
+	// other macros: the expansion would never end.
+	if _, ok := core.expandingMacros[name]; ok {
+		return paste.KeywordError("recursion is prohibited")
+	}
+	core.expandingMacros[name] = struct{}{}
+	defer delete(core.expandingMacros, name)
+
 	if je := core.collectRulesFromDirectives(macro.Children); je != nil {
 		return je
 	}
